@@ -404,7 +404,8 @@ def _attribute(prop, desc):
         from . import registry
         mine = [prop] + registry.PROPS.get(prop, {}).get('also_counts', [])
         return any(q in m.group(1).split(',') for q in mine)
-    return True
+    from . import registry
+    return not registry.PROPS.get(prop, {}).get('named_only')
 
 
 def _obligations(prop, group, names, results, Ob, replay_fn=None, feature=None, module=None):
